@@ -15,3 +15,13 @@ Theorem C04_not_before_last_observer : forall tr,
   collector_ok tr -> unlink_before_retire tr -> access_was_reachable tr -> safe tr.
 Proof. exact no_use_after_free. Qed.
 Print Assumptions C04_not_before_last_observer.
+
+(* the premise retire_once is not only assumed: over the list-bin protocol model
+   (Model/BinProto.v, tied to map.rs by the conformance replays of C01) a cell is unlinked - the
+   one place where the code retires a node - at most once on EVERY schedule *)
+From Flurry Require Import Model.BinReclaim Proofs.BinReclaimProofs.
+Theorem C04_unlinked_at_most_once : forall khash nbins progs sched,
+  (0 < nbins)%nat ->
+  NoDup (map fst (unlink_log khash nbins (BinProto.init nbins progs) sched)).
+Proof. exact unlinked_once. Qed.
+Print Assumptions C04_unlinked_at_most_once.
